@@ -2733,9 +2733,8 @@ theorem fit_no_raise_while (S : Schema) (hdet : detB S = true) (hfill : S.filler
     textblock, element types creatable) and **every slice, of any open depths**, that is well-formed (`Slice.wf`) and
     satisfies `Slice.openPrefixOk` (the two raise sites of `place_nodes`) and `Slice.stableOk` (the unplaced slice stays
     well-formed; it implies the termination guard), `replace_step` returns: the Fitter does not raise, its loop ends, and
-    the emitted step has a non-negative `insert`.  With `fitter_respects`, `fit_emits_wf`, `fit_emits_valid_payload` (whose run
-    hypothesis `unplacedWfRun` now follows: the loop returns and every state is well-formed) the answer is a well-formed step
-    with a valid payload that respects the request. -/
+    the emitted step has a non-negative `insert`.  What it returns is then well-formed, valid and respects the request:
+    `fit_no_raise_emits` below. -/
 theorem fit_no_raise (S : Schema) (hdet : detB S = true) (hfill : S.fillersOKB = true) (hwrap : S.wrapOKB = true)
     (hlab : S.labelsOKB = true) (hts : textStableC S = true) (hcl : S.closableB = true) (doc : Node) (f t : Nat)
     (sl : Slice) (hv : C01.Valid S doc) (hattrs : S.nodeAttrsOK doc = true)
@@ -2834,6 +2833,75 @@ example :
     (match replaceStep S doc 2 2 sl with
      | .ok (some (.replace 2 2 sl' _)) => sl' == sl
      | _ => false) = true := by decide +kernel
+
+/-- **the third raise site, exhibited** (stale `open_start`; outside `place_nodes`): schema `doc: "(sect | bq)+"`,
+    `sect: "bq bq"`, `bq: "p+"`, `p: "text*"`; the slice `<bq(p("a")), bq()>(2,1)` — `slice(3, 7)` of the valid document
+    `doc(bq(p("xa")), bq(p("b")))` (replayed on /repo) — inserted at position 6 of `doc(sect(bq(p("y")), bq(p("z"))))`, behind the first quote of
+    the section.  Every hypothesis of `fit_no_raise_while` holds (schema guards, valid document, termination guard,
+    `openPrefixOk`) except the run hypothesis: `stableOk` is false (a `bq` does not fit wherever a `bq` does: the section takes
+    exactly two), `place_nodes` takes `bq(p("a"))` at slice depth 0 and stops in front of the second quote, keeping
+    `open_start = 2`: the unplaced slice `<bq()>(2,1)` is not well-formed (`unplacedWfWhile` false), and the next
+    `find_fittable` walks two levels down the first children of an empty node: the model raises, and so does the real
+    `replace_step` (AttributeError in `find_fittable`, `node.type.spec.get("isolating")`; also upstream). -/
+example :
+    let nt (name : String) (isText inl leaf inlc : Bool) (dfa : Array DfaState) : NodeType :=
+      { name := name, isText := isText, isInline := inl, isLeaf := leaf, isAtom := leaf,
+        inlineContent := inlc, isolating := false, defining := false, code := false,
+        dfa := dfa, markSet := none, attrs := [] }
+    let S : Schema := { nodes := #[nt "doc" false false false false #[⟨false, [(1, 1), (2, 1)]⟩, ⟨true, [(1, 1), (2, 1)]⟩],
+                                   nt "sect" false false false false #[⟨false, [(2, 1)]⟩, ⟨false, [(2, 2)]⟩, ⟨true, []⟩],
+                                   nt "bq" false false false false #[⟨false, [(3, 1)]⟩, ⟨true, [(3, 1)]⟩],
+                                   nt "p" false false false true #[⟨true, [(4, 0)]⟩],
+                                   nt "text" true true true false #[⟨true, []⟩]],
+                        marks := #[], top := 0, textTy := 4 }
+    let doc := Node.elem 0 [] [] [.elem 1 [] [] [.elem 2 [] [] [.elem 3 [] [] [.text [121] []]],
+                                                 .elem 2 [] [] [.elem 3 [] [] [.text [122] []]]]]
+    let sl : Slice := ⟨[.elem 2 [] [] [.elem 3 [] [] [.text [97] []]], .elem 2 [] [] []], 2, 1⟩
+    detB S = true ∧ S.fillersOKB = true ∧ S.wrapOKB = true ∧ S.labelsOKB = true ∧ textStableC S = true ∧
+    S.closableB = true ∧ S.checkNode doc = true ∧ S.nodeAttrsOK doc = true ∧ S.isTextblockO (S.tyOf doc) = false ∧
+    sl.termGuard = true ∧ sl.openPrefixOk S = true ∧ sl.stableOk S = false ∧
+    (match replaceStep S doc 6 6 sl with | .error .raises => true | _ => false) = true ∧
+    (match doc.resolve 6 with
+     | some rf =>
+       (match (do let s0 ← fitInit S rf sl; fitStep S s0) with
+        | .ok s1 => s1.unplaced == ⟨[.elem 2 [] [] []], 2, 1⟩ &&
+            (match fitStep S s1 with | .error .raises => true | _ => false)
+        | _ => false)
+     | none => false) = true := by decide +kernel
+
+/-- … and that unplaced slice is not well-formed, while the request slice is -/
+example :
+    (⟨[.elem 2 [] [] [.elem 3 [] [] [.text [97] []]], .elem 2 [] [] []], 2, 1⟩ : Slice).wf = true ∧
+    (⟨[.elem 2 [] [] []], 2, 1⟩ : Slice).wf = false := by
+  simp [Slice.wf, spineL, spineR]
+
+/-- **`fit_no_raise_emits`** — under the static guards `replace_step` not only returns: what it returns is `None` or a step that is
+    well-formed (`StepWF`; `aroundShape` for a replace-around answer), has a valid payload (for a loosely valid request slice,
+    e.g. one cut from a valid document) and respects the request up to the monitored conjunct of `fitter_respects`.  The run
+    hypothesis `unplacedWfRun` of `fit_emits_wf` / `fit_emits_valid_payload` is discharged (`unplacedWfRun_of_while`:
+    the run returns and the unplaced slice is well-formed all along). -/
+theorem fit_no_raise_emits (S : Schema) (hdet : detB S = true) (hfill : S.fillersOKB = true) (hwrap : S.wrapOKB = true)
+    (hlab : S.labelsOKB = true) (hts : textStableC S = true) (hcl : S.closableB = true)
+    (hleaf : PM.FromDom.leafOkB S = true) (doc : Node) (f t : Nat)
+    (sl : Slice) (hv : C01.Valid S doc) (hattrs : S.nodeAttrsOK doc = true)
+    (htop : S.isTextblockO (S.tyOf doc) = false) (hft : f ≤ t) (ht : t ≤ fsize doc.kids)
+    (hwf : sl.wf = true) (hg : sl.openPrefixOk S = true) (hst : sl.stableOk S = true)
+    (hloose : sl.looseValid S = true) :
+    replaceStep S doc f t sl = .ok none ∨
+    ∃ st, replaceStep S doc f t sl = .ok (some st) ∧ StepWF st = true ∧
+      (∀ F T G1 G2 sl' ins b, st = .replaceAround F T G1 G2 sl' ins b → aroundShape F T G1 G2 sl' ins = true) ∧
+      (∃ sl', st.sliceOf = some sl' ∧ openValid S sl'.openStart sl'.openEnd sl'.content = true) ∧
+      ((∀ F T G1 G2 sl' ins b, st = .replaceAround F T G1 G2 sl' ins b →
+        noText ((sliceToks' sl').drop ins) = true) → respects (ftoks doc.kids) f t sl st = true) := by
+  obtain ⟨r, hr⟩ := fit_no_raise S hdet hfill hwrap hlab hts hcl doc f t sl hv hattrs htop hft ht hwf hg hst
+  cases r with
+  | none => exact .inl hr
+  | some st =>
+    have hrun := unplacedWfRun_of_while S doc f t sl _ hr (unplacedWfWhile_of_stable S doc f t sl hwf hst)
+    obtain ⟨h1, h2⟩ := fit_emits_wf S hdet hfill hwrap hlab doc f t sl hv hattrs hwf hft hrun st hr
+    exact .inr ⟨st, hr, h1, h2,
+      fit_emits_valid_payload S hdet hfill hwrap hlab hleaf hts hcl doc f t sl hloose hv hattrs hrun st hr,
+      fun htail => fitter_respects S doc f t sl st hft hwf hr htail⟩
 
 /-- the slices of the two examples above are well-formed (`Slice.wf`) -/
 example :
